@@ -3,20 +3,27 @@ from .protoprop import spec
 
 SPEC = spec(
     'C10',
-    ['C10_close_transport_forgets', 'C10_nothing_referenced_after_request'],
-    text='The protocol model tracks every transport (new / up / closing / gone / orphaned by a closed loop) and the sockets that '
-         'are open; it is replayed callback by callback against the real classes, whose sockets (AF_UNIX socketpairs under real '
-         'asyncio selector transports) are counted after every callback.  Monitors on sequences of requests, close() calls and '
-         'event-loop changes under the full fault alphabet: never more than one transport that is not closing, nothing open at '
-         'rest with keep-alive off or after close(), the same transport reused by consecutive successful requests with '
-         'keep-alive on, and a promptly answered request succeeds after any outcome.  Coq theorems are one-step facts '
-         '(_close_transport forgets the transport; nothing is referenced when a request is reported with keep-alive off).',
-    note='Partial: whole-run statements rest on trace validation + monitors. "Open" is read as "not closing": asyncio releases '
-         'the file descriptor of a closed transport one loop iteration later, so a closing and a new socket coexist for one '
-         'iteration (at most 2 descriptors). Not exhibited: kernel fd accounting, GC of transports orphaned by a closed loop.',
-    technique='trace-validated Coq model + one-step Coq lemmas + fault/close/new-loop sequence enumeration with monitors',
+    ['C10_at_most_one_open_transport', 'C10_open_transport_is_referenced', 'C10_nothing_open_after_request', 'C10_nothing_open_after_close',
+     'C10_close_transport_forgets', 'C10_nothing_referenced_after_request', 'C10_transport_opens', 'C10_everything_closed_at_the_end'],
+    text='Coq theorems over ALL runs of the protocol model (any callers, any interleaving of loop callbacks, I/O, timers, OS errors, '
+         'close() calls, loop changes, any fault oracle): in every state at most one transport is open (created and not closing); every '
+         'open transport is the one the protocol object references or the one being connected by the caller that holds the lock (no '
+         'leak); when a request reports to its caller with keep-alive off nothing is open; after close() nothing is open '
+         '(Proofs/ProtoTransport.v: invariant including the FIFO order of the connection_made / add_reader / waiter handles of a new '
+         'transport, built on the lock invariant).  The model tracks every transport (new / up / closing / gone / orphaned by a closed '
+         'loop) and is replayed callback by callback against the real classes, whose sockets (AF_UNIX socketpairs under real asyncio '
+         'selector transports) are counted after every callback.  Monitors on sequences of requests, close() calls and event-loop '
+         'changes under the full fault alphabet: never more than one transport that is not closing, nothing open at rest with '
+         'keep-alive off or after close(), the same transport reused by consecutive successful requests with keep-alive on, and a '
+         'promptly answered request succeeds after any outcome.',
+    note='"Open" is read as "not closing": asyncio releases the file descriptor of a closed transport one loop iteration later, so a '
+         'closing and a new socket coexist for one iteration (at most 2 descriptors).  The lock-free close() of a UDP object leaves '
+         'nothing open provided no other caller is connecting at that moment (stated in the theorem).  Reuse with keep-alive on and '
+         '"the next request reconnects and works" (liveness) are monitor claims.  Not exhibited: kernel fd accounting, GC of transports '
+         'orphaned by a closed loop.',
+    technique='Coq invariant proof (Proofs/ProtoTransport.v) over a trace-validated model + fault/close/new-loop sequence enumeration with monitors',
     design='DESIGN.md section 5 (C10)',
-    level='model_checking',
+    level='proof',
     rule='seeded sequences of 2..4 requests / close() calls x fault letters x optional second and third event loop; recovery '
          'scenarios for every letter x UDP/TCP x keep-alive',
 )
